@@ -44,7 +44,9 @@ def run(ctx: Context) -> None:
     from . import c04
     ctx.rule(c04.r2_tables, Plumbing(ctx.prog))
     before = len(ctx.undecided)
-    ctx.rule(c10.run_product, ("C09",), False, c10.plans(2, 2), "bootstrap-once")
+    # the sampler of batch k is the one the agent chose *for batch k*: which action a batch consumes must not depend on thread timing,
+    # and only the first batch may bypass the agent (families shared with C10's product analysis)
+    ctx.rule(c10.run_product, ("C09",), False, c10.plans(2, 2), "bootstrap-once", ("schedule-dependence", "later-batch"))
     product_decided = len(ctx.undecided) == before
     ctx.rule(r1_round_robin)
     ctx.rule(r1_calibrate_pairing)
